@@ -91,7 +91,7 @@ VALUES_REDUCED = ["null", "-1", "1", "0.5", "nan", "huge", "str-x", "dict-empty"
 ROOT_VALUES = ["null", "true", "0", "1", "nan", "huge", "str-empty", "str-x", "list-empty", "list-1"]
 
 KEY_TOKENS = ["?unknown", "?near", "#5", "#null", "#tuple"]
-KEY_CLASS = {"?unknown": "unknown-key", "?near": "nearmiss-key", "#5": "nonstr-key", "#null": "nonstr-key",
+KEY_CLASS = {"?unknown": "unknown-key", "?near": "nearmiss-key", "?tie": "nearmiss-key", "#5": "nonstr-key", "#null": "nonstr-key",
              "#tuple": "nonstr-key"}
 
 
@@ -183,9 +183,47 @@ def _near_miss(section: Tuple[str, ...]) -> str:
     raise HarnessError("no near-miss key for %r" % (section,))
 
 
+def _lev(a: str, b: str) -> int:
+    prev = list(range(len(b) + 1))
+    for i, ca in enumerate(a, 1):
+        cur = [i]
+        for j, cb in enumerate(b, 1):
+            cur.append(min(prev[j] + 1, cur[j - 1] + 1, prev[j - 1] + (ca != cb)))
+        prev = cur
+    return prev[-1]
+
+
+def _tie_key(section: Tuple[str, ...]) -> Optional[str]:
+    """an unknown key whose smallest edit distance (<= 2, the suggestion radius) is reached by two or more
+    allowed keys of this section: which one the message suggests must not depend on set iteration order"""
+    keys = list(TREE[section])
+    cands = []
+    for k in keys:
+        for i in range(len(k)):
+            cands.append(k[:i] + "z" + k[i + 1:])
+            cands.append(k[:i] + k[i + 1:])
+        cands.append(k + "z")
+    for c in sorted(set(cands), key=lambda x: (len(x), x)):
+        if not c or c in keys:
+            continue
+        ds = sorted(_lev(c, k) for k in keys)
+        if len(ds) >= 2 and ds[0] <= 2 and ds[0] == ds[1]:
+            return c
+    return None
+
+
+def tie_sections() -> List[Tuple[str, ...]]:
+    return [sec for sec in sorted(TREE) if len(TREE[sec]) >= 2 and _tie_key(sec) is not None]
+
+
 def _key_obj(section: Tuple[str, ...], token: str):
     if token == "?unknown":
         return "zzz_unknown_key"
+    if token == "?tie":
+        k = _tie_key(section)
+        if k is None:
+            raise HarnessError("no tie key for %r" % (section,))
+        return k
     if token == "?near":
         return _near_miss(section)
     if token == "#5":
@@ -1280,7 +1318,7 @@ def cli_subset() -> List[List[dict]]:
     ]
     allsingles = [d for d in singles() if d and d[0]["op"] == "set"]
     stride = max(1, len(allsingles) // 36)
-    out = list(fixed)
+    out = list(fixed) + [[dev_key(sec, "?tie")] for sec in tie_sections()]
     seen = set(json.dumps(d, sort_keys=True) for d in out)
     for d in allsingles[7::stride]:
         k = json.dumps(d, sort_keys=True)
@@ -1291,6 +1329,7 @@ def cli_subset() -> List[List[dict]]:
 
 
 CLI_FORMS = ["script", "script --strict", "wrapper -- --config", "wrapper --json"]
+HASH_SEEDS = ["0", "1", "2", "3", "4", "5", "6", "7"]
 
 
 def _cli_cmd(form):
@@ -1341,7 +1380,14 @@ def cli_check(devs, scratch):
     viols = []
     n = 0
     desc = _short(eff, 160)
-    for form in CLI_FORMS:
+    # the string-hash seed of the CLI process is part of the environment the verdict and messages must not
+    # depend on: each form runs under its own seed; inputs with an added key (the "did you mean" path) run the
+    # script form under every seed of HASH_SEEDS
+    plan = [(form, str(i + 1)) for i, form in enumerate(CLI_FORMS)]
+    if any(dv["op"] == "key" and dv["k"] in ("?tie", "?near", "?unknown") for dv in devs):
+        plan += [("script", hs) for hs in HASH_SEEDS if hs != "1"]
+    for form, hseed in plan:
+        env["PYTHONHASHSEED"] = hseed
         try:
             pr = subprocess.run(_cli_cmd(form), cwd=d, env=env, capture_output=True, text=True, timeout=120)
         except subprocess.TimeoutExpired:
